@@ -607,6 +607,20 @@ func (w *World) afterOp(t *simrt.Task, hs *HandleState, cr *CallRec, before dirS
 	if w.Sequential && cr.StaleAtStart && before.OK && cr.Class != "panic" {
 		w.checkStaleOp(hs, cr, before)
 	}
+	// C13: an expiry compaction through a current handle, undisturbed, has
+	// removed exactly the expired entries when it returns success - also
+	// when it decided that there was nothing to rewrite.
+	if w.Sequential && cr.Kind == OpExpire && cr.Class == "ok" && hs.Open && !cr.StaleAtStart && !cr.SawLockEEXIST && cr.Spec.Exp != nil && cr.LatestAtStart < len(w.Versions) {
+		start := w.Versions[cr.LatestAtStart]
+		if start.View != nil && len(start.Names) > 0 && w.Latest().View != nil {
+			want := start.View.Clone()
+			want.Expire(cr.Spec.Exp)
+			if d := want.Diff(w.Latest().View); d != "" {
+				w.violate("C13", "expiry-not-applied", fmt.Sprintf("list-changes=%d", cr.ListChanges), fmt.Sprintf("CompactAll(%+v) returned success but the committed state is not the expired one: %s", *cr.Spec.Exp, d))
+			}
+			w.probe("c13-judged-at-return")
+		}
+	}
 	// C17: the automatic compaction that follows Add is attempted exactly
 	// when two adjacent tables share a size class - judged on the stack as
 	// this very Add left it, and only when nobody interfered.
